@@ -125,6 +125,24 @@ def mac_cases(thorough):
                     yield {"entries": ents, "cmd": cmd}
 
 
+    # the envelope carries local time: Macs east and west of Greenwich (whole, half and quarter hour zones up to +-12/14 h)
+    for tz in (-12 * 3600, -5 * 3600, -900, 900, 5 * 3600 + 1800, 9 * 3600, 14 * 3600):
+        for level in (1, 2):
+            ents = [{"k": "f", "path": "", "name": "Zone %d" % tz, "perms": 0o100644, "mtime": T1 if level == 2 else T2, "data": hx(bytes((i * 11 + 1) & 0xFF for i in range(300))), "mac": "both", "resfork": 40, "level": level, "mactz": tz},
+                    {"k": "f", "path": "", "name": "after", "perms": 0o100644, "mtime": T1, "data": hx(b"next member")}]
+            for cmd in ("xf", "pq2"):
+                yield {"entries": ents, "cmd": cmd}
+
+
+def setid_cases(thorough):
+    """set-user-id, set-group-id and sticky bits are permission bits too; the run is made as root so that the recorded owner can be set"""
+    for perms in (0o104755, 0o102755, 0o106711, 0o101644, 0o107777, 0o104000):
+        for level in (2, 1, 0):
+            ents = [{"k": "f", "path": "", "name": "tool", "perms": perms, "mtime": T1, "data": hx(b"#!/bin/sh\n"), "level": level}, {"k": "f", "path": "", "name": "plain", "perms": 0o100644, "mtime": T1, "data": hx(b"x"), "level": level}]
+            for cmd in ("xf", "xq"):
+                yield {"entries": ents, "cmd": cmd, "uid": 0, "fullmode": True}
+
+
 def relocation_cases(thorough):
     """w=OUT while directories of the same names already exist in the working directory: they must stay untouched"""
     trees = fixed_trees()
@@ -249,6 +267,7 @@ def run(ctx):
     cliprop.run_space(ctx, "props.cli_c06", "options", option_cases(T), chunk=32)
     cliprop.run_space(ctx, "props.cli_c06", "overwrite", overwrite_cases(T), chunk=64)
     cliprop.run_space(ctx, "props.cli_c06", "macbinary", mac_cases(T), chunk=16)
+    cliprop.run_space(ctx, "props.cli_c06", "setid", setid_cases(T), chunk=4)
     cliprop.run_space(ctx, "props.cli_c06", "relocation", relocation_cases(T), chunk=4)
     cliprop.run_space(ctx, "props.cli_c06", "wildcards", glob_cases(T), chunk=8)
     cliprop.run_space(ctx, "props.cli_c06", "print", print_cases(T), chunk=64)
@@ -267,7 +286,7 @@ def run(ctx):
     return ctx.finish(
         rule="'tree-shapes': ALL trees with up to 4 (thorough 5) archive entries, up to 3 children per directory, depth <= 3, node kinds {dir 0755/0555/0700, implicit dir, file 0644/0400, safe link, dangerous link}, sibling names a/ab/b, two timestamps, extracted with 'x' unprivileged; "
              "'options': 4 fixed trees (flat with lh5/lzs members, nested read-only, links, MacBinary/level-0/1 members) x every ordered option word of up to 2 (3) letters from {f,q0,q1,q2,i,w=OUT,v} x {x,e}; "
-             "'overwrite': every subset of pre-existing members x every answer string up to the number of prompts over {y,n,a,s,empty,junk,Yes,N}, plus f/q; 'wildcards': every pattern up to length 3 (4) over {a,b,*,?,/} against 100+ stored paths; 'macbinary': MacLHA members with data/resource fork lengths around multiples of 128 (envelope recognised <=> declared length is the 128-rounded sum) under xf and pq2; 'print': p/pq/pq1 over all trees of up to 3 entries; 'environment': the four fixed trees under umask 000/027/077, the 'many' archives under a descriptor limit of 24; 'preexisting-kinds': a regular file, a dangling link or a link to another file already present at one or two of the output paths of link and file members, under xf and xq1; 'times': recorded times 1, 86399/86400, 2^31-2..2^31+1, 3x10^9, 2100-01-01, 2^32-2, 2^32-1 on files and directories at levels 0/1/2; 'many': 255/256/257/300 (600) sibling directories with files, plain files, safe links and dangerous links in one archive, directory chains 20 and 60 deep. "
+             "'overwrite': every subset of pre-existing members x every answer string up to the number of prompts over {y,n,a,s,empty,junk,Yes,N}, plus f/q; 'wildcards': every pattern up to length 3 (4) over {a,b,*,?,/} against 100+ stored paths; 'macbinary': MacLHA members with data/resource fork lengths around multiples of 128 (envelope recognised <=> declared length is the 128-rounded sum) under xf and pq2, envelope times in zones from -12 h to +14 h; 'setid': set-id and sticky bits in the recorded mode, extracted as root (all 12 mode bits compared); 'print': p/pq/pq1 over all trees of up to 3 entries; 'environment': the four fixed trees under umask 000/027/077, the 'many' archives under a descriptor limit of 24; 'preexisting-kinds': a regular file, a dangling link or a link to another file already present at one or two of the output paths of link and file members, under xf and xq1; 'times': recorded times 1, 86399/86400, 2^31-2..2^31+1, 3x10^9, 2100-01-01, 2^32-2, 2^32-1 on files and directories at levels 0/1/2; 'many': 255/256/257/300 (600) sibling directories with files, plain files, safe links and dangerous links in one archive, directory chains 20 and 60 deep. "
              "Oracle: final tree == model tree on content, mtime, mode & 0777, link target, directory mode and mtime; stdout == banner + bytes for p. non-trivial = runs that created at least one object / printed",
         replay_fn=lambda rep: (cliprop.replay_case(rep) if rep.get('kind') == 'cli' else runner.replay_explorer(rep, quiet=True)))
 
